@@ -49,6 +49,23 @@ CHECKS = {
     design_ref="DESIGN.md section 6 (C07)", note=_MEM_NOTE,
     technique="Coq proof: counting invariant acc = count_p (firstn cur h) + trace-level differential correspondence",
  ),
+ "C11": dict(
+    text="C11_vector_prefilter (all four ISAs incl. the AVX2 wrapper's SSE2 route) and C11_generic_prefilter (any width / mask representation "
+         "obeying MaskLaws): for every needle, valid pair and haystack >= min_haystack_len the candidate is <= the first occurrence and has both "
+         "pair bytes at their offsets; None only without an occurrence; loads in bounds. Key arithmetic: min_haystack_len - BYTES < needle.len(), "
+         "so the re-aligned last chunk covers every possible occurrence start.",
+    design_ref="DESIGN.md section 6 (C11)", note=_MEM_NOTE,
+    technique="Coq proof: chunk-scan invariant with the pair-mask lemma, parametric in width and mask representation + differential correspondence (results, load traces)",
+ ),
+ "C12": dict(
+    text="Block theorems, each '= Ok (find_spec/rfind_spec ...)' for every needle and haystack of the block's domain: Rabin-Karp forward/reverse "
+         "(rolling hash = hash of the window, algebra mod 2^32, valid also when 2^(n-1) wraps to 0), Shift-Or (state invariant bit j = 0 iff "
+         "x[0..j) is a suffix of the bytes read; constructor None exactly above 15 bytes), packed-pair find on every ISA (panic exactly below "
+         "min_haystack_len). Two-Way forward/reverse: proved for every haystack under a decidable needle certificate that is evaluated for "
+         "every needle the check uses (Tier 1).",
+    design_ref="DESIGN.md section 6 (C12)", note=_MEM_NOTE,
+    technique="Coq proofs: loop invariants (rolling-hash algebra, bit-level Shift-Or state, chunk scan) + differential correspondence (results, load/step traces)",
+ ),
  "C18": dict(
     text="Theorems C18_is_equal / C18_is_prefix / C18_is_suffix / C18_is_equal_raw (coq/Props/C18.v) prove for all byte "
          "lists, lengths and placements that the modelled routines return exactly slice equality / starts_with / ends_with, "
